@@ -52,7 +52,8 @@ Catalogue(sp) ==
       scalarSpace == sp.m = 1
       all ==
         {Leaf("L1"), Leaf("L2"), Leaf("L2sq"),
-         LeafS("Huber", Q(1, 2)),
+         LeafS("Huber", Q(1, 2)), LeafS("Huber", QZero),                 \* gamma = 0: documented boundary value
+         LeafSC("IndBox", QOne, QOne),                                   \* lower = upper
          LeafSC("IndBox", QI(-1), QI(2)), Leaf("IndNonneg"),
          LeafSC("IndZero", QZero, QZero), LeafSC("IndZero", QZero, QOne),
          Leaf("IndBall2"), Leaf("IndBallInf"),
@@ -92,20 +93,22 @@ UnaryRulesAll(sp) ==
    Rule("QuadPert", QOne, QI(-1), <<>>, PVecT(n)),                        \* + |x|^2 + <x,u> - 1
    Rule("Conj", QZero, QZero, <<>>, <<>>),
    Rule("Bregman", QZero, QZero, PVecY(n), PVecP(n))} \cup
-  (IF sp.kind \in {"rn", "rnw"} THEN {Rule("Comp", QZero, QZero, Shear(n), <<>>)} ELSE {})
+  (IF sp.kind \in {"rn", "rnw"} THEN {Rule("Comp", QZero, QZero, Shear(n), <<>>)} ELSE {}) \cup
+  \* nonlinear inner operators with domain = range: PowerOperator(2), PowerOperator(3)
+  (IF sp.m = 1 THEN {Rule("CompPow", QI(2), QZero, <<>>, <<>>), Rule("CompPow", QI(3), QZero, <<>>, <<>>)} ELSE {})
 UnaryRules(sp) == IF RuleFilter = {} THEN UnaryRulesAll(sp)
                   ELSE {r \in UnaryRulesAll(sp) : r.op \in RuleFilter}
 BinOps == {"Sum", "Prod", "Quot", "InfConv"}
 
 (* well-formedness of a rule application (mathematics, not ODL) *)
-Rescaling == {"ArgScale", "RVec", "Comp"}
+Rescaling == {"ArgScale", "RVec", "Comp", "CompPow"}
 Applicable(r, e) ==
   IF e.f.op = "InfConv" THEN r.op = "Conj"
   \* (two argument rescalings in a row add nothing but 32-bit pressure on the exact stencil)
   ELSE IF r.op \in Rescaling /\ e.f.op \in Rescaling THEN FALSE
   ELSE IF r.op = "LScale" /\ r.s[1] < 0 THEN FiniteValued(e.f)
   ELSE IF r.op = "Conj" THEN Convex(e.f) /\ HasSubdiff(e.f)
-  ELSE IF r.op = "Comp" THEN e.sp.kind # "part"
+  ELSE IF r.op \in {"Comp", "CompPow"} THEN e.sp.kind # "part"
   ELSE IF r.op = "Bregman" THEN XKnown(Val(e.sp, e.f, r.v))      \* the reference point lies in dom f
   ELSE TRUE
 
